@@ -16,7 +16,7 @@ RULE = ("cases = (generated table with one of 9 last-column shapes, subset of 1.
         "order, mode in {owning mode, sql}): every single clause x every last-column shape x both modes exhaustively, every ordered "
         "pair of compatible clauses, then seeded random subsets/orders; clause values are varied (formats, literals, numbers, "
         "column lists). Non-trivial = every case (each compares a with/without pair); distinct = distinct (DDL, mode).")
-RULE += (" Added after seeded defects: identifier-valued clause slots take tricky-vocabulary names, delimited operands and (after TABLESPACE) keyword-shaped words; single-class STORED AS INPUTFORMAT / OUTPUTFORMAT; the clauses the pinned tree reads after a LIKE body (CREATE TABLE t LIKE s / (LIKE s)) are also generated there.")
+RULE += (" Added after seeded defects: identifier-valued clause slots take tricky-vocabulary names, delimited operands and (after TABLESPACE) keyword-shaped words; single-class STORED AS INPUTFORMAT / OUTPUTFORMAT; the clauses the pinned tree reads after a LIKE body (CREATE TABLE t LIKE s / (LIKE s)) are also generated there; ORGANIZE BY COLUMN, CLUSTERED BY col without parentheses, an MSSQL body whose key constraint carries its own WITH (...) ON [filegroup].")
 ASSUMPTIONS = ["a LIKE body stands where the column list would be: clauses are generated after it only where the pinned tree reads them (deny-list NOT_AFTER_LIKE, plain operands)",
                "only clause combinations compatible within one dialect; order restricted where the dialect's own grammar fixes it (hql, oracle, mssql, bigquery, postgres, ibm_db2)",
                "calibrated placements: partitioned_by / partition_by / comment / tablespace are common fields (top level in both modes); snowflake retention/tracking options and spark USING live in table_properties in both modes",
@@ -25,6 +25,10 @@ MIN_EVENTS = {"statements": 100, "run_return": 100}
 
 LAST = ["b varchar(10)", "b varchar(10) NOT NULL", "b varchar(10) DEFAULT 'x'", "b int PRIMARY KEY", "b decimal(10,2) UNIQUE", "b int REFERENCES p (k)",
         "b date,\n  PRIMARY KEY (a)", "b int,\n  CONSTRAINT u UNIQUE (a, b)", "b int DEFAULT 5 NOT NULL"]
+
+
+# SSMS-style body: the key constraint carries its own WITH (...) ON [filegroup]; a table-level ON / WITH after the list must still win
+MSSQL_LAST = "b int,\n  CONSTRAINT pk_t PRIMARY KEY CLUSTERED (a ASC) WITH (PAD_INDEX = OFF, IGNORE_DUP_KEY = OFF) ON [IDX_FG]"
 
 
 def C(cid, text, exp, place="top"):
@@ -56,7 +60,8 @@ def catalogue(rng):
             [C("comment", "COMMENT " + lit, {"comment": lit}, "common")],
             [C("partitioned_by", "PARTITIONED BY (dt string, hr int)", {"partitioned_by": [{"name": "dt", "type": "string", "size": None}, {"name": "hr", "type": "int", "size": None}]}, "common"),
              C("partitioned_by", "PARTITIONED BY (dt string)", {"partitioned_by": [{"name": "dt", "type": "string", "size": None}]}, "common")],
-            [C("clustered_by", "CLUSTERED BY (%s) INTO %d BUCKETS" % (col, n), {"clustered_by": [col], "into_buckets": str(n)})],
+            [C("clustered_by", "CLUSTERED BY (%s) INTO %d BUCKETS" % (col, n), {"clustered_by": [col], "into_buckets": str(n)}),
+             C("clustered_by", "CLUSTERED BY %s INTO %d BUCKETS" % (col, n), {"clustered_by": col, "into_buckets": str(n)})],      # without parentheses: a plain word
             [C("skewed_by", "SKEWED BY (a) ON (1, 2)", {"skewed_by": {"key": "a", "on": ["1", "2"]}})],
             [C("row_format", "ROW FORMAT DELIMITED", {"row_format": "DELIMITED"}),
              C("row_format", "ROW FORMAT SERDE 'org.x.Serde'", {"row_format": {"serde": True, "java_class": "'org.x.Serde'"}})],
@@ -122,7 +127,7 @@ def catalogue(rng):
         "ibm_db2": (True, [
             [C("tablespace", "IN " + ts, {"tablespace": ts}, "common")],
             [C("index_in", "INDEX IN " + ts_ix, {"index_in": ts_ix})],
-            [C("organize_by", "ORGANIZE BY ROW", {"organize_by": "ROW"})],
+            [C("organize_by", "ORGANIZE BY ROW", {"organize_by": "ROW"}), C("organize_by", "ORGANIZE BY COLUMN", {"organize_by": "COLUMN"})],
         ]),
     }
 
@@ -237,8 +242,8 @@ def run_shard(ctx):
     for dialect, (ordered, slots) in sorted(cat0.items()):
         for si, slot in enumerate(slots):
             for c in slot:
-                for li, last in enumerate(LAST):
-                    if ctx.tier == "quick" and (li + si) % 3:
+                for li, last in enumerate(LAST + ([MSSQL_LAST] if dialect == "mssql" else [])):
+                    if ctx.tier == "quick" and (li + si) % 3 and last != MSSQL_LAST:
                         continue
                     for mode in (dialect, "sql"):
                         i += 1
@@ -260,7 +265,7 @@ def run_shard(ctx):
         cat = catalogue(rng)
         d = rng.choice(dialects)
         clauses = pick(rng, cat, d, rng.randint(1, 4))
-        case = {"gen": "random", "dialect": d, "mode": rng.choice([d, "sql"]), "last": rng.choice(LAST), "clauses": clauses}
+        case = {"gen": "random", "dialect": d, "mode": rng.choice([d, "sql"]), "last": rng.choice(LAST + ([MSSQL_LAST] * 4 if d == "mssql" else [])), "clauses": clauses}
         if j % 5 == 0:
             # the same clauses after a LIKE body (CREATE TABLE t LIKE s / (LIKE s)) instead of a column list
             kept = [c for c in clauses if ok_after_like(d, c)]
